@@ -23,6 +23,7 @@ from typing import Any, Dict, List, Optional, Tuple
 
 UUID_RE = re.compile(r"[0-9a-f]{8}-[0-9a-f]{4}-[0-9a-f]{4}-[0-9a-f]{4}-[0-9a-f]{12}")
 MAC_RE = re.compile(r"(?<![0-9a-f:])(?:[0-9a-f]{2}:){5}[0-9a-f]{2}(?![0-9a-f:])")
+ID_RE = re.compile(UUID_RE.pattern + "|" + MAC_RE.pattern)
 TS_RE = re.compile(r"\d{4}-\d\d-\d\d[T ]\d\d:\d\d:\d\d(?:\.\d+)?")
 BROADCAST = "ff:ff:ff:ff:ff:ff"
 
@@ -49,8 +50,7 @@ class Canon:
         return self.ids[s]
 
     def text(self, s: str) -> str:
-        s = UUID_RE.sub(self._id, s)
-        s = MAC_RE.sub(self._id, s)
+        s = ID_RE.sub(self._id, s)  # ONE pass, so that the numbering is first-seen in text order (= the model's canonRun)
         return TS_RE.sub("<ts>", s)
 
 
@@ -142,14 +142,17 @@ def worker_main() -> int:
         def hist():
             return {"histories": {n: [_item(i) for i in a.history] for n, a in env.game.agents.items()}}
 
-        emit({"op": "new", "agents": list(env.game.agents), "order": list(env.game._reward_calculation_order)})
+        emit({"op": "new", "agents": list(env.game.agents), "order_deps_first": _order_ok(env.game)})
         for op in spec["ops"]:
             if isinstance(op, list) and op and op[0] == "reset":
                 emit(hist())
+                canon.ids.clear()  # identifiers are numbered per episode (the new game shares none with the old one)
                 obs, info = env.reset(seed=op[1])
                 emit({"op": "reset", "obs": _plain(obs)})
                 continue
             obs, reward, term, trunc, info = env.step(op)
+            if not _order_ok(env.game):
+                emit({"reward-order-not-dependencies-first": list(env.game._reward_calculation_order)})
             emit({"op": op, "obs": _plain(obs), "reward": float(reward).hex(), "term": bool(term), "trunc": bool(trunc),
                   "acts": {n: _item(i) for n, i in info["agent_actions"].items()},
                   "rewards": {n: float(a.reward_function.current_reward).hex() for n, a in env.game.agents.items()}})
@@ -165,10 +168,53 @@ def worker_main() -> int:
     return 0
 
 
-def _probe(env, what: str) -> Any:
-    if what == "link-loads":
-        return {str(k): float(l.current_load).hex() for k, l in enumerate(env.game.simulation.network.links.values())}
-    return None
+def _order_ok(game) -> bool:
+    """The reward evaluation order may legitimately differ between processes (the dependency sets are sets of names); what
+    must hold in every process is that it is duplicate-free, covers every agent and puts dependencies first."""
+    from primaite.game.agent.rewards import SharedReward
+    order = list(game._reward_calculation_order)
+    if len(set(order)) != len(order) or set(order) != set(game.agents):
+        return False
+    pos = {n: i for i, n in enumerate(order)}
+    for name, agent in game.agents.items():
+        for comp, _w in agent.reward_function.reward_components:
+            if isinstance(comp, SharedReward) and pos.get(comp.config.agent_name, 10 ** 9) >= pos[name]:
+                return False
+    return True
+
+
+def _probe(env, what: Dict) -> Any:
+    """Stand-alone evaluations of inventory sites inside THIS process (compared across processes by the parent)."""
+    out: Dict[str, Any] = {}
+    if what.get("link_loads"):
+        out["link_loads"] = [float(l.current_load).hex() for l in env.game.simulation.network.links.values()]
+    if "int_sets" in what:  # `for port in set(target_port)`, `list(software.listen_on_ports)`: sets of small ints
+        out["int_sets"] = [list(set(l)) for l in what["int_sets"]]
+    if what.get("open_ports"):
+        out["open_ports"] = {n.config.hostname: list(n.software_manager.get_open_ports()) for n in env.game.simulation.network.nodes.values()}
+        out["listen"] = {n.config.hostname: {name: sorted(sw.listen_on_ports) for name, sw in n.software_manager.software.items()
+                                             if getattr(sw, "listen_on_ports", None)}
+                         for n in env.game.simulation.network.nodes.values()}
+    if "explode" in what:  # NMAP target expansion, visited in sorted order after the F-8 repair
+        from ipaddress import IPv4Address, IPv4Network
+        from primaite.simulator.system.applications.nmap import NMAP
+        res = []
+        for targets in what["explode"]:
+            ts = [IPv4Network(t, strict=False) if "/" in t else IPv4Address(t) for t in targets]
+            res.append([str(x) for x in sorted(NMAP._explode_ip_address_network_array(ts))])
+        out["explode"] = res
+    if "str_graphs" in what:  # reward-sharing shaped graphs with SET neighbours of strings
+        from primaite.game.science import graph_has_cycle, topological_sort
+        res = []
+        for g in what["str_graphs"]:
+            graph = {k: set(v) for k, v in g.items()}
+            cyc = graph_has_cycle(graph)
+            order = list(topological_sort(graph))
+            pos = {n: i for i, n in enumerate(order)}
+            deps_first = all(pos[d] < pos[k] for k in graph for d in graph[k]) if not cyc else None
+            res.append({"cycle": cyc, "deps_first": deps_first, "nodes": sorted(order), "nodup": len(set(order)) == len(order)})
+        out["str_graphs"] = res
+    return out
 
 
 # ------------------------------------------------------------------------------------------------ parent
